@@ -17,6 +17,7 @@ checks_for() {
     url/path.go)         echo "C01 C05 C03 C04 C13 C06 C20";;
     url/inputstring.go)  echo "C01 C02 C05 C20";;
     url/parseroptions.go) echo "C16 C15 C02 C01";;
+    url/errorhandler.go) echo "C15 C02 C01";;
     errors/*)            echo "C15 C02";;
     canonicalizer/*)     echo "C16 C17 C18 C02";;
     *)                   echo "C01 C02";;
